@@ -27,6 +27,7 @@ type c15Cell struct {
 	Shard    int    `json:"shard"`   // incidence structures are split over NShards cells
 	NShards  int    `json:"nshards"`
 	Prog     int    `json:"prog,omitempty"` // conc: program index
+	Fail     int    `json:"fail,omitempty"` // conc: 1+index of the Delete call that fails during the concurrent phase (0 = none)
 }
 
 func (c c15Cell) id() string { js, _ := json.Marshal(c); return string(js) }
@@ -55,7 +56,9 @@ func c15Cells(tier string) []Cell {
 
 	for p := range c15Progs {
 		for _, d := range []string{"SM", "SY"} {
-			cells = append(cells, Cell{ID: c15Cell{Mode: "conc", Deleters: d, Prog: p}.id()})
+			for fail := 0; fail <= 2; fail++ {
+				cells = append(cells, Cell{ID: c15Cell{Mode: "conc", Deleters: d, Prog: p, Fail: fail}.id()})
+			}
 		}
 	}
 
@@ -492,9 +495,14 @@ func c15Conc(cc c15Cell, env *Env) CellResult {
 		caches map[string]backend
 		counts []int
 		errs   []error
+		calls  int
+		failAt int
 	)
 
 	ctx := context.Background()
+	del := func(b backend) cache.Deleter {
+		return faultyDeleter{inner: deleterOf(b), calls: &calls, failAt: &failAt}
+	}
 
 	body := func() {
 		vclock.Reset()
@@ -502,6 +510,7 @@ func c15Conc(cc c15Cell, env *Env) CellResult {
 		idx = cache.NewInvalidationIndex()
 		caches = map[string]backend{}
 		counts, errs = nil, nil
+		calls, failAt = 0, cc.Fail-1
 		cfg := cache.Config{Name: "c15c", ExpirationJitter: -1}
 
 		for _, n := range []string{"name0", "name1", "name2"} {
@@ -512,8 +521,8 @@ func c15Conc(cc c15Cell, env *Env) CellResult {
 			}
 		}
 
-		idx.AddCache("name0", deleterOf(caches["name0"]))
-		idx.AddCache("name1", deleterOf(caches["name1"]))
+		idx.AddCache("name0", del(caches["name0"]))
+		idx.AddCache("name1", del(caches["name1"]))
 		idx.AddLabels("name1", c15Key(0), "A", "B")
 		idx.AddLabels("name1", c15Key(1), "A")
 
@@ -525,7 +534,7 @@ func c15Conc(cc c15Cell, env *Env) CellResult {
 					case "add":
 						idx.AddLabels(o.Name, c15Key(o.Key), o.Label)
 					case "cache":
-						idx.AddCache(o.Name, deleterOf(caches[o.Name]))
+						idx.AddCache(o.Name, del(caches[o.Name]))
 					case "inval":
 						n, err := idx.InvalidateByLabels(ctx, o.Label)
 						counts = append(counts, n)
@@ -537,7 +546,9 @@ func c15Conc(cc c15Cell, env *Env) CellResult {
 
 		vsched.Join()
 
-		// Final sweep: whatever was labelled, before or concurrently, must be removable now.
+		// Final sweep (the deleter has recovered): whatever was labelled, before or concurrently, must be removable now.
+		failAt = -1
+
 		for _, l := range c15Labels {
 			n, err := idx.InvalidateByLabels(ctx, l)
 			counts = append(counts, n)
@@ -558,7 +569,7 @@ func c15Conc(cc c15Cell, env *Env) CellResult {
 		}
 
 		for _, e := range errs {
-			if e != nil {
+			if e != nil && !errors.Is(e, errInjected) {
 				bad("error", fmt.Sprintf("InvalidateByLabels failed: %v", e))
 			}
 		}
